@@ -40,6 +40,7 @@ ALLOW_INDEX = [
     ("role:dir_decoder", "entries[i] for i in 0..num_entries: the vector received exactly num_entries pushes in the first pass, every other exit is an error return"),
 ]
 _ROLE_FNS = {}
+_SHARED = {}
 
 
 def _install_roles(ctx):
@@ -62,6 +63,15 @@ def _install_roles(ctx):
                 callers = [c for c, cs in cg.items() if f["path"] in cs]
                 if callers and all(c in fns for c in callers):
                     fns.add(f["path"])
+    # a private helper shared by several role functions (one zoom-base helper for both directions of the id mapping) is judged under every
+    # caller's role: an operation in it is allowed only when each of those roles allows it
+    _SHARED.clear()
+    for f in ctx.user_fns():
+        if f["vis"] != "pub" and not any(f["path"] in fns for fns in r.values()):
+            callers = [c for c, cs in cg.items() if f["path"] in cs]
+            roles = [set(role for role, fns in r.items() if c in fns) for c in callers]
+            if callers and all(roles):
+                _SHARED[f["path"]] = roles
     _ROLE_FNS.clear()
     _ROLE_FNS.update(r)
 
@@ -387,11 +397,18 @@ def allowed(fnpath, opname, l, r):
                 return why
         except Exception:
             pass
-    for (fn, op, needle, why) in ALLOW:
-        if _in_role(fn, fnpath) and op == opname:
-            if not needle or needle in tstr(l) or (r is not None and needle in tstr(r)):
-                return why
-    return None
+    def by_role(in_role):
+        for (fn, op, needle, why) in ALLOW:
+            if in_role(fn) and op == opname:
+                if not needle or needle in tstr(l) or (r is not None and needle in tstr(r)):
+                    return why
+        return None
+    w = by_role(lambda fn: _in_role(fn, fnpath))
+    if w is None and fnpath in _SHARED:
+        ws = [by_role(lambda fn, rs=rs: fn in rs) for rs in _SHARED[fnpath]]
+        if all(ws):
+            return "; ".join(sorted(set(ws)))
+    return w
 
 
 def r_taint_arith(ctx, extra=None, rule="R-TAINT-ARITH", only_fns=None):
@@ -565,6 +582,10 @@ def r_taint_index(ctx, extra=None):
                 if not (t_idx or t_base):
                     continue
                 verdict, why = False, "index %s into input-derived/sized container without a visible bound" % tstr(idx)[:60]
+                if " as core::ops::index::Index" in f["path"] and idx[0] == "v" and str(idx[1]).startswith("param:"):
+                    # the type's own `Index`/`IndexMut` impl forwarding the caller's index to the underlying sequence: out-of-range is the operator's
+                    # documented contract (whether spelled `self.v[i]` or `self.v.index(i)`); callers inside the crate are checked at their own sites
+                    verdict, why = True, "Index/IndexMut impl forwarding the caller's index (operator contract)"
                 # v[0] after `!v.is_empty()` (or for a chunk of `chunks`, which is never empty)
                 if idx == C(0):
                     if knows(p, ("empty", base, False), e.seq) is not None:
@@ -1211,7 +1232,37 @@ def r_findz(ctx):
     obs = []
     fz = [f for f in ctx.user_fns() if "MaxZError" in f["ret"] and "Result<u8" in f["ret"]]
     if not fz:
-        return no_anchor("R-FINDZ", "zoom search (function returning Result<u8, MaxZError>)")
+        # the search may hand back the zoom together with that zoom's first id
+        fp = [f for f in ctx.user_fns() if "MaxZError" in f["ret"] and re.search(r"Result<\(u8, ?u64\)", f["ret"]) and len(f["params"]) == 1]
+        if not fp:
+            return no_anchor("R-FINDZ", "zoom search (function returning Result<u8, MaxZError>)")
+        for f in fp:
+            fa = ctx.fa(f)
+            fn = f["path"]
+            tid = role_param(fa, f, "u64")
+            oks = [p for p in fa.paths if p.exit == "ok"]
+            errs = [p for p in fa.paths if p.exit == "err"]
+            # the function relies on its callers for id ≠ 0 (zxy answers 0 first): every local caller must have refuted id == 0
+            callers_ok = True
+            for g in ctx.user_fns():
+                if fn in set(c["fn"] for c in calls(g["body"])) and g["path"] != fn:
+                    ga = ctx.fa(g)
+                    for q in ga.paths:
+                        for e in q.events:
+                            if e.kind == "call" and e.d["fn"] == fn and knows(q, ("ne", unmut(e.d["args"][0]), 0), e.seq) is None:
+                                callers_ok = False
+            good = bool(oks)
+            for p in oks:
+                v = unmut(p.value)
+                t = unmut(v[2][0]) if is_call_to(v, lambda s_: s_ == "core::result::Result::Ok") and v[2] else None
+                ex = [e for e in p.events if e.kind == "exit"][-1]
+                # (the standalone function has no `id == 0` decision of its own: the callers' refutation, checked above, stands in for it)
+                good = good and t is not None and t[0] == "tup" and len(t[1]) == 2 and _running_base_in(fa, p, tid, t[1][0], t[1][1], ex.seq)
+            obs.append(Ob("R-FINDZ", fn, "zoom is recorded only under `id < end of that zoom's block` (strict)", good and callers_ok,
+                          "returns (zoom, first id of that zoom) of a validated running-base search: %s; callers refute id == 0: %s" % (good, callers_ok), rel(f["loc"])))
+            obs.append(Ob("R-FINDZ", fn, "searches zooms 1..=31", good, "loop guard z < %d with z starting at 1" % (SPEC["max_zoom"] + 1), rel(f["loc"])))
+            obs.append(Ob("R-FINDZ", fn, "ids beyond the last block are an error", bool(errs), "error exits: %d" % len(errs), rel(f["loc"])))
+        return obs
     maxz = SPEC["max_zoom"]
     for f in fz:
         fa = ctx.fa(f)
@@ -1363,6 +1414,8 @@ def r_hilbert_call(ctx):
             # 1 + Σ_{1≤i<z} 4^i  =  Σ_{0≤i<z} 4^i
             ok_base = len(hterm) == 1 and av[1][hterm[0]] == 1 and len(base) == 1 and av[1][base[0]] == 1 and \
                 ((av[0] == 1 and _is_pow4_sum(base[0], P.get("z"))) or (av[0] == 0 and _is_pow4_sum(base[0], P.get("z"), 0)) or _zoom_base_fold(av[0], base[0], P.get("z")))
+            if not ok_base and len(hterm) == 1 and av[1][hterm[0]] == 1:
+                ok_base = _zoom_base_accum(av[0], {k: c for k, c in av[1].items() if k not in hterm}, P.get("z"), fa, +1)
             obs.append(Ob("R-HILBERT-CALL", f["path"], "id = 1 + Σ_{1≤i<z} 4^i + position", ok_base, "returns %s" % aff_str(av)[:160], rel(f["loc"])))
             nc = absint.narrowing_casts(v)
             obs.append(Ob("R-HILBERT-CALL", f["path"], "the id is not truncated on the way out", not nc, ("narrowing cast(s): %s" % ", ".join("%s as %s" % (c[3], c[1]) for c in nc)) if nc else "no narrowing cast in the returned id", hc[0].loc()))
@@ -1390,13 +1443,89 @@ def r_hilbert_call(ctx):
             base = [k for k in ha[1] if k != tid]
             ok_h = ha[1].get(tid) == 1 and len(base) == 1 and ha[1][base[0]] == -1 and is_call_to(a[2], lambda s: s.endswith("Variant::Hilbert")) and \
                 ((ha[0] == -1 and _is_pow4_sum(base[0], z)) or (ha[0] == 0 and _is_pow4_sum(base[0], z, 0)) or _zoom_base_fold(-ha[0], base[0], z))
+            if not ok_h and ha[1].get(tid) == 1 and is_call_to(a[2], lambda s: s.endswith("Variant::Hilbert")):
+                ok_h = _zoom_base_accum(-ha[0], {k: -c for k, c in ha[1].items() if k != tid}, z, fa, +1)
+            running = False
+            if not ok_h and ha[0] == 0 and ha[1].get(tid) == 1 and len(base) == 1 and ha[1][base[0]] == -1 and is_call_to(a[2], lambda s: s.endswith("Variant::Hilbert")):
+                ok_h = running = _running_base(fa, p, tid, z, base[0], hc[0].seq)
             obs.append(Ob("R-HILBERT-CALL", f["path"], "position = id − (1 + Σ_{1≤i<z} 4^i), decoded with h2xy_discrete(_, z, Hilbert)", ok_h, "first argument %s" % aff_str(ha)[:140], hc[0].loc()))
             r = unmut(hc[0].d["ret"])
-            ok_t = tup is not None and tup[0] == "tup" and len(tup[1]) == 3 and tup[1][0] == z and _strip_cast(tup[1][1]) == ("proj", r, 0) and _strip_cast(tup[1][2]) == ("proj", r, 1) and z[0] == "call"
+            ok_t = tup is not None and tup[0] == "tup" and len(tup[1]) == 3 and tup[1][0] == z and _strip_cast(tup[1][1]) == ("proj", r, 0) and _strip_cast(tup[1][2]) == ("proj", r, 1) and (z[0] == "call" or running)
             obs.append(Ob("R-HILBERT-CALL", f["path"], "returns (z, x, y) in that order from the zoom search and the curve", ok_t, "returns %s" % tstr(tup)[:120], rel(f["loc"])))
             nc = absint.narrowing_casts(v) + absint.narrowing_casts(a[0])
             obs.append(Ob("R-HILBERT-CALL", f["path"], "neither the position nor the coordinates are truncated", not nc, ("narrowing cast(s): %s" % ", ".join("%s as %s" % (c[3], c[1]) for c in nc)) if nc else "no narrowing cast", hc[0].loc()))
     return obs
+
+
+def _running_base(fa, p, tid, z, B, upto, need_nonzero=True):
+    """the zoom search that carries the zoom's first id along:  z = 1, base = 1;  while z < 32 { if id < base + 4^z { found (z, base) };
+    base += 4^z; z += 1 }.  Checked as a loop invariant, base = 1 + Σ_{1≤i<z} 4^i: it holds on entry (1, 1), every other value the two
+    variables are given is (z + 1, base + 4^z) of the *same* iteration, and (z, base) is used only under `z < 32` and the strict test
+    `id < base + 4^z` of this iteration.  (The lower bound id ≥ base follows: on entry from id ≠ 0, later from the refuted test of the
+    iteration before.)"""
+    z, B = unmut(z), unmut(B)
+    if not (z[0] == "v" and B[0] == "v" and str(z[1]).startswith("loop") and str(B[1]).startswith("loop") and z[1].split(":")[0] == B[1].split(":")[0]):
+        return False
+    lid = z[1].split(":")[0][4:]
+    if set(unmut(x) for x in fa.havoc_init.get(z, ())) != {C(1)} or set(unmut(x) for x in fa.havoc_init.get(B, ())) != {C(1)}:
+        return False
+    width = lambda t: is_call_to(unmut(t), lambda s: s.endswith("::pow")) and len(unmut(t)[2]) == 2 and unmut(t)[2][0] == C(4) and _strip_cast(unmut(unmut(t)[2][1])) == z
+    def is_next_base(t):
+        a = affine(unmut(t))
+        return a[0] == 0 and len(a[1]) == 2 and a[1].get(B) == 1 and all(c == 1 for c in a[1].values()) and any(k != B and width(k) for k in a[1])
+    zs = [unmut(x) for x in fa.havoc_src.get(z, ()) if unmut(x) != C(1)]
+    bs = [unmut(x) for x in fa.havoc_src.get(B, ()) if unmut(x) != C(1)]
+    if not zs or not bs or not all(aff_eq(affine(x), (1, {z: 1})) for x in zs) or not all(is_next_base(x) for x in bs):
+        return False
+    strict = bounded = False
+    for d in p.decisions(upto):
+        if d.d["how"] not in ("if", "while") or not d.loops or str(d.loops[-1]) != lid:
+            continue
+        for c, pol in _atoms_with_polarity(unmut(d.d["cond"]), d.d["outcome"] is True):
+            if c[0] != "bin" or not pol:
+                continue
+            if c[1] == "<" and unmut(c[2]) == tid and is_next_base(c[3]):
+                strict = True
+            if c[1] == ">" and unmut(c[3]) == tid and is_next_base(c[2]):
+                strict = True
+            if c[1] == "<" and unmut(c[2]) == z and unmut(c[3]) == C(SPEC["max_zoom"] + 1):
+                bounded = True
+    return strict and bounded and (not need_nonzero or knows(p, ("ne", tid, 0), upto) is not None)
+
+
+def _running_base_in(fa, p, tid, z, B, upto):
+    return _running_base(fa, p, tid, z, B, upto, need_nonzero=False)
+
+
+def _zoom_base_accum(const, atoms, z, fa, sign):
+    """the zoom base written as an explicit accumulation loop:  acc = 0; for i in 1..z { acc += 4^i }; 1 + acc  (or seeded with 1 / started at 0).
+    On the path that skips the loop the base is the bare constant; on the representative iteration it is const + acc + 4^i with acc a loop variable
+    whose sources are the seed and acc + 4^i, i ranging over start..z.  const + seed must be 1 for start = 1 (0 for start = 0)."""
+    if not atoms:
+        return const == 1         # the range 1..z was empty (z ≤ 1): the base is 1; the loop itself is validated on the iterating path
+    if len(atoms) != 2 or any(c != 1 for c in atoms.values()):
+        return False
+    acc = [k for k in atoms if isinstance(k, tuple) and k and k[0] == "v" and str(k[1]).startswith("loop")]
+    pw = [k for k in atoms if k not in acc]
+    if len(acc) != 1 or len(pw) != 1:
+        return False
+    acc, pw = acc[0], unmut(pw[0])
+    if not (is_call_to(pw, lambda s: s.endswith("::pow")) and len(pw[2]) == 2 and pw[2][0] == C(4)):
+        return False
+    idx = _strip_cast(unmut(pw[2][1]))
+    if not (isinstance(idx, tuple) and idx and idx[0] == "elem"):
+        return False
+    rng = unmut(idx[1])
+    if not (rng[0] == "struct" and rng[1] == "core::ops::range::Range" and _strip_cast(unmut(struct_field(rng, "end"))) == z):
+        return False
+    start = struct_field(rng, "start")
+    seeds = [unmut(x) for x in fa.havoc_src.get(acc, ()) if unmut(x)[0] == "c"]
+    steps = [unmut(x) for x in fa.havoc_src.get(acc, ()) if unmut(x)[0] != "c"]
+    ok_steps = bool(steps) and all(affine(st_)[0] == 0 and set(affine(st_)[1].values()) == {1} and acc in affine(st_)[1] and len(affine(st_)[1]) == 2 for st_ in steps)
+    if len(seeds) != 1 or not ok_steps:
+        return False
+    total = const + seeds[0][1]
+    return (start == C(1) and total == 1) or (start == C(0) and total == 0)
 
 
 def _zoom_base_fold(const, t, z):
